@@ -93,6 +93,9 @@ class World:
         self.max_conns = int(plan.get('knobs', {}).get('max_conns', 50000))
         # bytes one send() call takes at most (a full send buffer makes send() on a socket with a timeout return a short count); 0 = unlimited
         self.sndbuf = int(plan.get('knobs', {}).get('sndbuf', 0) or 0)
+        # data queued before an RST arrived: still readable first (Linux) or discarded with the reset (BSD-like); seeded per plan unless given
+        rk = plan.get('knobs', {}).get('rst_keeps_data')
+        self.rst_keeps_data = bool(rk) if rk is not None else subrng(plan.get('seed', 0), 'rst-keeps-data').random() < 0.5
         self.net_time_us = 0     # virtual time spent by data in flight (latency, gaps, injected delays)
         self.executors = []
         self.exec_future_counter = 0
@@ -206,7 +209,8 @@ class World:
             pipe.fin = True
         elif item == 'RST':
             pipe.rst = True
-            del pipe.buf[:]
+            if not self.rst_keeps_data:
+                del pipe.buf[:]
         elif pipe.closed_reader or pipe.rst:
             return
         else:
@@ -484,7 +488,7 @@ class SimSocket:
             if not ok:
                 k.record('tool', 'recv_timeout', self.fd)
                 raise _socket.timeout('timed out')
-        if rx.rst:
+        if rx.rst and not (w.rst_keeps_data and rx.buf):
             k.record('tool', 'recv_rst', self.fd)
             raise ConnectionResetError(errno.ECONNRESET, 'Connection reset by peer')
         if rx.buf:
